@@ -1,5 +1,6 @@
 import PyPhysim.Proofs.C16
 import PyPhysim.Proofs.C16Dmin
+import PyPhysim.Proofs.C16ExactPsk
 import PyPhysim.Generated.C16Formulas
 
 /-!
@@ -278,5 +279,77 @@ example : ∃ Q : ℝ → ℝ, IsQ Q := by
     have := tendsto_inv_atTop_zero.comp h1
     refine this.congr (fun x => ?_)
     simp [Function.comp]
+
+/-! ### the formulas ARE the AWGN error rates of the modelled detector (Gaussian integrals, not assumed)
+
+`Qg x = P(N > x)`, `N ~ 𝒩(0,1)` (Mathlib's `gaussianReal`); the noise is independent `𝒩(0, σ²)` on
+the two real dimensions with `σ² = 1/(2γ)` (`sigma`), the detector is `Model/C01`'s `bpskDemod` /
+`demod`, the constellation is the emitted one (`pskNatural`, `qamNatural`).  Relabelling (the Gray
+permutation of C15) permutes the symbols and leaves these per-symbol / averaged rates unchanged. -/
+
+/-- The abstract hypotheses `IsQ` hold for the actual Gaussian tail: every theorem above applies to the
+    real `Q` function. -/
+theorem gaussian_tail_is_Q : IsQ Qg := isQ_gaussian
+
+/-- **BPSK: the formula is exact.**  Whichever bit is sent (`0 ↦ +1`, `1 ↦ −1`), the sign detector errs
+    with probability `Q(√(2γ)) = calcTheoreticalSER`. -/
+theorem bpsk_ser_is_exact (s : ℝ) :
+    (noise (sigma s)).real {n : ℝ | bpskDemod ((1:ℝ) + n) ≠ 0} = bpskSER Qg s ∧
+    (noise (sigma s)).real {n : ℝ | bpskDemod ((-1:ℝ) + n) ≠ 1} = bpskSER Qg s :=
+  ⟨bpsk_error_prob_bit0 s, bpsk_error_prob_bit1 s⟩
+
+/-- **Square QAM: the formula is exact**, for every `L ≥ 2` (`M = L²`) and every SNR: one minus the
+    average probability of a correct nearest-point decision over the `M` emitted points equals
+    `1 − (1 − 2(1 − 1/√M)·Q(√(3γ/(M−1))))²`.  (`qam_points_are_grid` says the points summed over are exactly
+    the emitted table.) -/
+theorem qam_ser_exact (L : Nat) (hL : 2 ≤ L) (s : ℝ) :
+    1 - (∑ i ∈ Finset.range L, ∑ j ∈ Finset.range L,
+          (noise2 (sigma s)).real
+            (correctNoise (qamNatural (α := ℝ) L) (gpt (1 / qamE L) L j i) (i * L + j))) / ((L:ℝ) * L)
+      = qamSER Qg (L * L) s :=
+  qam_ser_is_exact L hL s
+
+/-- the point used for index `i·L + j` in `qam_ser_exact` is the table entry at that index -/
+theorem qam_points_are_grid (L : Nat) {j i : Nat} (hj : j < L) (hi : i < L) :
+    (qamNatural (α := ℝ) L)[i * L + j]? = some (gpt (1 / qamE L) L j i) :=
+  qamNatural_getElem? L hj hi
+
+/-- per-point version: the point in column `j`, row `i` is detected correctly with probability
+    `(1 − c_j Q)(1 − c_i Q)`, `c = 1` on an edge, `2` inside — the neighbour structure of the grid -/
+theorem qam_point_correct_prob (L : Nat) (hL : 2 ≤ L) (s : ℝ) {j i : Nat} (hj : j < L) (hi : i < L) :
+    (noise2 (sigma s)).real (correctNoise (qamNatural (α := ℝ) L) (gpt (1 / qamE L) L j i) (i * L + j)) =
+      (1 - (cnt L j : ℝ) * Qg (1 / qamE L / sigma s)) * (1 - (cnt L i : ℝ) * Qg (1 / qamE L / sigma s)) := by
+  have he : 0 < qamE L := qam_scale_pos L hL
+  rw [qamNatural_eq_grid]
+  exact prob_correct (sigma_pos s) (by positivity) hj hi
+
+/-- **PSK: the two-nearest-neighbour formula lies between the exact error rate and twice it**, for every
+    `M ≥ 2`, every phase offset, every symbol `k` and every SNR: with `Pe = 1 − P(correct | k)` the exact
+    symbol error probability of the nearest-point detector, `Pe ≤ calcTheoreticalSER ≤ 2·Pe`. -/
+theorem psk_ser_between_exact_and_twice (M : Nat) (hM : 2 ≤ M) (k : Nat) (hk : k < M) (φ s : ℝ) :
+    let Pe := 1 - (noise2 (sigma s)).real
+      (correctNoise (pskNatural (α := ℝ) M φ) (pskNaturalPoint M k φ) k)
+    Pe ≤ pskSER Qg M s ∧ pskSER Qg M s ≤ 2 * Pe := by
+  intro Pe
+  have hle := psk_correct_le M hM k hk φ s
+  have hge : 1 - 2 * Qg (pskArg M s) ≤ (noise2 (sigma s)).real
+      (correctNoise (pskNatural (α := ℝ) M φ) (pskNaturalPoint M k φ) k) := by
+    rcases Nat.lt_or_ge M 3 with h | h
+    · have : M = 2 := by omega
+      subst this
+      exact psk_correct_ge_two k hk φ s
+    · exact psk_correct_ge M h k hk φ s
+  have h2 : ((2:Nat):ℝ) = 2 := by norm_num
+  simp only [pskSER, h2, Pe]
+  constructor <;> linarith
+
+/-- pairwise error probability behind all three: under isotropic Gaussian noise the sample is (strictly
+    or weakly) closer to another point `q` than to the transmitted `p` with probability `Q(|q − p|/2σ)` -/
+theorem pairwise_error_probability {σ : ℝ} (hσ : 0 < σ) (p q : ℝ × ℝ) (hne : 0 < dist2 q p) :
+    (noise2 σ).real {n | dist2 (p.1 + n.1, p.2 + n.2) q < dist2 (p.1 + n.1, p.2 + n.2) p} =
+        Qg (Real.sqrt (dist2 q p) / (2 * σ)) ∧
+    (noise2 σ).real {n | dist2 (p.1 + n.1, p.2 + n.2) q ≤ dist2 (p.1 + n.1, p.2 + n.2) p} =
+        Qg (Real.sqrt (dist2 q p) / (2 * σ)) :=
+  halfplane_prob hσ p q hne
 
 end PyPhysim.C16
